@@ -69,4 +69,168 @@ theorem print_parse_value (fl : Flags) (hnl : fl.noLocation = true) (c : Cfg) (v
   · simp [classes, Item.yieldAll, Item.yield, cls_sof, cls_eof, yieldValue] at h2 ⊢
     exact h2
 
+
+/-- non-vacuity: `[1, "a\"😀", true, null, E, $v, {k: [-2]}]` satisfies every hypothesis -/
+private def exV : Value :=
+  .list [.int [49] none, .string ⟨[97, 34, 0x1F600], false, none⟩, .boolean true none, .null none, .enum [69] none,
+         .var ⟨⟨[118], none⟩, none⟩, .object [.mk ⟨[107], none⟩ (.list [.int [45, 50] none] none) none] none] none
+example : ∃ toks, lexAll (printValue (mkCfg (.width 2)) exV) = .ok toks ∧ parseValue { noLocation := true } toks = .ok exV :=
+  print_parse_value _ rfl _ exV
+    (by simp only [exV, lexOkValue, lexOkValues, lexOkField, lexOkFields, Bool.false_eq_true, false_implies, true_and, and_true]; decide) (by decide) (by decide)
+example : printValue (mkCfg (.width 2)) exV = textOfString "[1, \"a\\\"😀\", true, null, E, $v, {k: [-2]}]" := by decide
+
+/-- `print_stable` for types and values: printing the re-parsed tree reproduces the same text -/
+theorem print_stable_type (fl : Flags) (hnl : fl.noLocation = true) (t : TypeRef) (hl : lexOkType t = true)
+    (hn : noLocType t = true) (hw : wfType t = true) :
+    ∃ toks t', lexAll (printType t) = .ok toks ∧ parseType fl toks = .ok t' ∧ printType t' = printType t := by
+  obtain ⟨toks, h1, h2⟩ := print_parse_type fl hnl t hl hn hw
+  exact ⟨toks, t, h1, h2, rfl⟩
+
+theorem print_stable_value (fl : Flags) (hnl : fl.noLocation = true) (c : Cfg) (v : Value)
+    (hl : lexOkValue c.indent v) (hn : noLocValue v = true) (hw : wfValue false v = true) :
+    ∃ toks v', lexAll (printValue c v) = .ok toks ∧ parseValue fl toks = .ok v' ∧ printValue c v' = printValue c v := by
+  obtain ⟨toks, h1, h2⟩ := print_parse_value fl hnl c v hl hn hw
+  exact ⟨toks, v, h1, h2, rfl⟩
+
+/-! ## documents -/
+
+/-- `print_total`: the model printer is a total function on EVERY tree (no error branch exists in `Print.lean`; that
+    the real printer raises nothing on parser-produced trees is the correspondence + the direct oracle), and its output
+    always ends with the final newline of `print_document`. -/
+theorem print_total (c : Cfg) (d : Document) : ∃ s, printDocument c d = s ++ [10] := ⟨_, rfl⟩
+
+/-- an indentation setting of the statement: spaces and tabs only -/
+def IndentOK (c : Cfg) : Prop := ∀ ch ∈ c.indent, ch = 32 ∨ ch = 9
+
+/-- THE FULL STATEMENT `print_parse` (C03): for every text the parser accepts (any flags with `no_location`), every
+    indentation setting, descriptions on — the printed tree is accepted and parses to the SAME tree. -/
+def PrintParseStatement : Prop :=
+  ∀ (fl : Flags) (c : Cfg) (x : Text) (toks : List Tok) (d : Document),
+    fl.noLocation = true → c.includeDescriptions = true → IndentOK c →
+    lexAll x = .ok toks → parseDocument fl toks = .ok d →
+    ∃ toks', lexAll (printDocument c d) = .ok toks' ∧ parseDocument fl toks' = .ok d
+
+/-- the descriptions the printer never prints (finding R4) removed -/
+def stripIV (d : InputValueDefinition) : InputValueDefinition := { d with description := none }
+def stripFD (d : FieldDefinition) : FieldDefinition :=
+  { d with description := none, arguments := d.arguments.map stripIV }
+def stripEV (d : EnumValueDefinition) : EnumValueDefinition := { d with description := none }
+def stripDef : Definition → Definition
+  | .objectTypeDefinition desc name ifs dirs fields loc => .objectTypeDefinition desc name ifs dirs (fields.map stripFD) loc
+  | .objectTypeExtension name ifs dirs fields loc => .objectTypeExtension name ifs dirs (fields.map stripFD) loc
+  | .interfaceTypeDefinition desc name dirs fields loc => .interfaceTypeDefinition desc name dirs (fields.map stripFD) loc
+  | .interfaceTypeExtension name dirs fields loc => .interfaceTypeExtension name dirs (fields.map stripFD) loc
+  | .enumTypeDefinition desc name dirs values loc => .enumTypeDefinition desc name dirs (values.map stripEV) loc
+  | .enumTypeExtension name dirs values loc => .enumTypeExtension name dirs (values.map stripEV) loc
+  | .inputObjectTypeDefinition desc name dirs fields loc => .inputObjectTypeDefinition desc name dirs (fields.map stripIV) loc
+  | .inputObjectTypeExtension name dirs fields loc => .inputObjectTypeExtension name dirs (fields.map stripIV) loc
+  | .directiveDefinition desc name args locations loc => .directiveDefinition desc name (args.map stripIV) locations loc
+  | d => d
+def stripMemberDescriptions (d : Document) : Document := { d with definitions := d.definitions.map stripDef }
+
+/-- THE STATEMENT MODULO MEMBER DESCRIPTIONS (what holds on today's code according to the correspondence and the direct
+    oracle: every difference the oracle sees is a dropped member description) -/
+def PrintParseModuloMembersStatement : Prop :=
+  ∀ (fl : Flags) (c : Cfg) (x : Text) (toks : List Tok) (d : Document),
+    fl.noLocation = true → c.includeDescriptions = true → IndentOK c →
+    lexAll x = .ok toks → parseDocument fl toks = .ok d →
+    ∃ toks', lexAll (printDocument c d) = .ok toks' ∧ parseDocument fl toks' = .ok (stripMemberDescriptions d)
+
+/-- THE FULL STATEMENT `print_stable` for documents -/
+def PrintStableStatement : Prop :=
+  ∀ (fl : Flags) (c : Cfg) (x : Text) (toks : List Tok) (d : Document),
+    fl.noLocation = true → IndentOK c → lexAll x = .ok toks → parseDocument fl toks = .ok d →
+    ∃ toks' d', lexAll (printDocument c d) = .ok toks' ∧ parseDocument fl toks' = .ok d' ∧
+      printDocument c d' = printDocument c d
+
+/-! ### R4: the refutation witness of `PrintParseStatement` (also the replay on the implementation) -/
+
+/-- `enum E {"" A}` -/
+def r4Text : Text := [101, 110, 117, 109, 32, 69, 32, 123, 34, 34, 32, 65, 125]
+def r4Flags : Flags := { noLocation := true, allowTypeSystem := true }
+def r4Doc (desc : Option StringValue) : Document :=
+  ⟨[.enumTypeDefinition none ⟨[69], none⟩ [] [⟨desc, ⟨[65], none⟩, [], none⟩] none], none⟩
+
+/-- the parser accepts the text: the enum value carries the (empty, quoted) description -/
+theorem r4_parse : ∃ toks, lexAll r4Text = .ok toks ∧ parseDocument r4Flags toks = .ok (r4Doc (some ⟨[], false, none⟩)) :=
+  ⟨_, rfl, rfl⟩
+
+/-- the printer drops it: `enum E {⏎  A⏎}⏎` -/
+theorem r4_print : printDocument (mkCfg (.width 2)) (r4Doc (some ⟨[], false, none⟩)) =
+    [101, 110, 117, 109, 32, 69, 32, 123, 10, 32, 32, 65, 10, 125, 10] := by decide
+
+/-- … and the printed text parses to the tree WITHOUT the description -/
+theorem r4_reparse : ∃ toks, lexAll (printDocument (mkCfg (.width 2)) (r4Doc (some ⟨[], false, none⟩))) = .ok toks ∧
+    parseDocument r4Flags toks = .ok (r4Doc none) := by
+  rw [r4_print]; exact ⟨_, rfl, rfl⟩
+
+/-- `print_parse_refuted` (R4, KNOWN FINDING — pinned by test_schema_kitchen_sink): the full statement is false on
+    today's code; descriptions of fields, arguments, input fields and enum values are lost. -/
+theorem print_parse_refuted : ¬ PrintParseStatement := by
+  intro h
+  obtain ⟨toks, hl, hp⟩ := r4_parse
+  obtain ⟨toks', h1, h2⟩ := h r4Flags (mkCfg (.width 2)) r4Text toks _ rfl rfl (by intro ch hc; simp [mkCfg] at hc; exact Or.inl hc) hl hp
+  obtain ⟨toks'', h3, h4⟩ := r4_reparse
+  rw [h1] at h3
+  cases h3
+  rw [h2] at h4
+  simp [r4Doc] at h4
+
+/-- the loss is exactly a member description: the witness satisfies the statement modulo member descriptions -/
+example : stripMemberDescriptions (r4Doc (some ⟨[], false, none⟩)) = r4Doc none := rfl
+
+
+/-! ### the printer does not read member descriptions: stability is compatible with the R4 loss -/
+
+private theorem printIV_strip (c : Cfg) : printInputValueDefinition c ∘ stripIV = printInputValueDefinition c := rfl
+private theorem printFD_strip (c : Cfg) : printFieldDefinition c ∘ stripFD = printFieldDefinition c := by
+  funext d
+  simp [printFieldDefinition, stripFD, printArgumentDefinitions, List.map_map, printIV_strip]
+private theorem printEV_strip (c : Cfg) : printEnumValueDefinition c ∘ stripEV = printEnumValueDefinition c := rfl
+
+private theorem printDefinition_strip (c : Cfg) (d : Definition) : printDefinition c (stripDef d) = printDefinition c d := by
+  cases d <;> simp [stripDef, printDefinition, List.map_map, printFD_strip, printEV_strip, printIV_strip,
+    printArgumentDefinitions]
+
+private theorem documentEntries_strip (c : Cfg) (ds : List Definition) (acc : List Text) :
+    documentEntries c acc (ds.map stripDef) = documentEntries c acc ds := by
+  induction ds generalizing acc with
+  | nil => rfl
+  | cons d ds ih => simp only [List.map_cons, documentEntries, printDefinition_strip, ih]
+
+/-- `print_ignores_member_descriptions`: the printed text does not depend on the descriptions of fields, arguments,
+    input fields and enum values (finding R4 stated positively) — hence `print(parse(print t)) = print t` is not
+    disturbed by their loss. -/
+theorem print_ignores_member_descriptions (c : Cfg) (d : Document) :
+    printDocument c (stripMemberDescriptions d) = printDocument c d := by
+  simp [printDocument, stripMemberDescriptions, documentEntries_strip]
+
+/-- `print_stable` follows from the statement modulo member descriptions -/
+theorem print_stable_of_modulo (h : PrintParseModuloMembersStatement) :
+    ∀ (fl : Flags) (c : Cfg) (x : Text) (toks : List Tok) (d : Document),
+      fl.noLocation = true → c.includeDescriptions = true → IndentOK c → lexAll x = .ok toks → parseDocument fl toks = .ok d →
+      ∃ toks' d', lexAll (printDocument c d) = .ok toks' ∧ parseDocument fl toks' = .ok d' ∧
+        printDocument c d' = printDocument c d := by
+  intro fl c x toks d h1 h2 h3 h4 h5
+  obtain ⟨toks', a, b⟩ := h fl c x toks d h1 h2 h3 h4 h5
+  exact ⟨toks', _, a, b, print_ignores_member_descriptions c d⟩
+
+/-- `print_parse_partial` — what is PROVED of `PrintParseModuloMembersStatement` / `PrintParseStatement`, for every
+    indentation configuration and every flag combination with `no_location`:
+      (1) TYPES in full (`print_parse_type`);
+      (2) VALUES: all 9 kinds, nested lists / objects, variables, quoted strings with arbitrary content; floats and
+          block strings under the string-level hypotheses `FloatLexeme` / `BlockLexeme` (block strings at nesting
+          depth 0: the value position of `parse_value`) (`print_parse_value`).
+    MISSING: arguments / directives / variable definitions (same lemmas, one more layer), selections and selection sets
+    (need `_indent` = `replaceLF` commuting with lexing: an LF-prefix of ignored characters inside block strings is the
+    lemma `indent_common_shift` of the string part), operations / fragments / type-system definitions and the document
+    loop (need the document-level `parse_complete` of C01, itself open).  All of these are covered by the
+    correspondence (exact strings, model = code) and the direct oracle of corr/C03_print.py. -/
+theorem print_parse_partial (fl : Flags) (hnl : fl.noLocation = true) (c : Cfg) :
+    (∀ t, lexOkType t = true → noLocType t = true → wfType t = true →
+      ∃ toks, lexAll (printType t) = .ok toks ∧ parseType fl toks = .ok t) ∧
+    (∀ v, lexOkValue c.indent v → noLocValue v = true → wfValue false v = true →
+      ∃ toks, lexAll (printValue c v) = .ok toks ∧ parseValue fl toks = .ok v) :=
+  ⟨fun t a b d => print_parse_type fl hnl t a b d, fun v a b d => print_parse_value fl hnl c v a b d⟩
+
 end PyGql.Props.C03
